@@ -37,8 +37,11 @@ pub fn run(case_json: &str) -> ! {
     std::panic::set_hook(Box::new(move |info| {
         // generated panics and cancels are part of the programs: keep quiet, remember the last
         let msg = format!("{info}");
-        if trace {
-            eprintln!("PANIC {msg}");
+        // expected: generated panics and the Cancel payload (not a string); anything else is
+        // worth a line on stderr, which the parent keeps for crash fingerprints
+        let expected = msg.contains("mv-expected") || msg.contains("Box<dyn Any>");
+        if trace || !expected {
+            eprintln!("PANIC {}", msg.replace('\n', " "));
         }
         if let Ok(mut g) = LAST_PANIC.lock() {
             *g = msg;
